@@ -1,6 +1,6 @@
 (* C09 — bulk multiply kernels equal element-wise field multiplication on every
    path and stay inside their buffers.  Model: Model/Kernels.v. *)
-From Gopar Require Import Model.Base Model.GF16 Model.Kernels Model.Ssse3 Model.ScalarAsm Proofs.KernelFacts Proofs.Ssse3Facts Proofs.ScalarAsmFacts.
+From Gopar Require Import Model.Base Model.GF16 Model.Kernels Model.Ssse3 Model.ScalarAsm Proofs.KernelFacts Proofs.Ssse3Facts Proofs.ScalarAsmFacts Proofs.Ssse3Bounds.
 From Coq Require Import List. Import ListNotations.
 Open Scope N_scope.
 
@@ -110,3 +110,51 @@ Print Assumptions C09_scalar_asm_in_bounds.
 Theorem C09_scalar_asm_empty_faults : forall c acc, scalar_asm c acc [] [] = None.
 Proof. exact scalar_asm_empty_faults. Qed.
 Print Assumptions C09_scalar_asm_empty_faults.
+
+(* MEMORY SAFETY OF THE SSSE3 ROUTINES, at instruction level, on an INSTRUMENTED interpreter of the same machine
+   (Proofs/Ssse3Bounds.v: [step_ok] is false for a MOVOU whose 16 bytes are not inside the buffer its pointer
+   refers to, for a MOVOU through an integer, and for integer operations on a pointer).  Under exactly what the
+   Go callers establish (len(out) = len(in) >= 32): no access of the prologue or of any loop iteration leaves
+   its buffer, every store goes to the output buffer (index 2), the table and the input are unchanged, and the
+   run is the one Model/Ssse3.v's [ssse3_chunks] performs. *)
+Theorem C09_ssse3_run_in_bounds : forall (c : N) (acc : bool) (inb outb : bytes),
+  length inb = length outb -> (32 <= length inb)%nat -> lenN inb < Ssse3.two64 ->
+  let st0 := Ssse3.init_state [Ssse3.GPtr 0 0; Ssse3.GPtr 1 0; Ssse3.GInt (lenN inb); Ssse3.GInt (lenN inb);
+                         Ssse3.GPtr 2 0; Ssse3.GInt (lenN outb); Ssse3.GInt (lenN outb)]
+                        [table64 c; inb; outb] in
+  let pre := if acc then mulAndAddSliceSSSE3Unsafe_pre else mulSliceSSSE3Unsafe_pre in
+  let body := if acc then mulAndAddSliceSSSE3Unsafe_body else mulSliceSSSE3Unsafe_body in
+  let st1 := Ssse3.run pre st0 in
+  let fuel := match Ssse3.getg st1 Ssse3.AX with
+              | Ssse3.GInt n => N.to_nat (dowhile_iters n)
+              | Ssse3.GPtr _ _ => O
+              end in
+  let st2 := Ssse3.run_loop fuel Ssse3.AX body st1 in
+  run_ok pre st0 = true /\ run_loop_ok fuel Ssse3.AX body st1 = true /\
+  writes_only 2 pre st0 = true /\ loop_writes_only 2 fuel Ssse3.AX body st1 = true /\
+  Ssse3.membuf st2 0 = table64 c /\ Ssse3.membuf st2 1 = inb /\ Ssse3.membuf st2 2 = ssse3_chunks c acc inb outb /\
+  length (ssse3_chunks c acc inb outb) = length outb.
+Proof. exact ssse3_chunks_run_in_bounds. Qed.
+Print Assumptions C09_ssse3_run_in_bounds.
+
+(* ... and the bound is EXACT: for any buffer lengths and length argument li (>= 32), the instrumented run is
+   fault-free IF AND ONLY IF both buffers hold the 32*(li/32) bytes the loop touches - so the instrumented
+   semantics can fail, and fails exactly when an access would leave a buffer *)
+Theorem C09_ssse3_bounds_exact : forall acc tb inb outb li lo fuel,
+  (128 <= length tb)%nat -> 1 <= li / 32 -> li < Ssse3.two64 -> (N.to_nat (li / 32) <= fuel)%nat ->
+  let st0 := slice_state tb inb outb li lo in
+  run_ok (slice_pre acc) st0 && run_loop_ok fuel Ssse3.AX (slice_body acc) (Ssse3.run (slice_pre acc) st0) = true <->
+  (32 * (li / 32) <= lenN inb /\ 32 * (li / 32) <= lenN outb).
+Proof. exact sliceSSSE3Unsafe_exact. Qed.
+Print Assumptions C09_ssse3_bounds_exact.
+
+(* the 16-byte routines (byte-order maps, one multiplication step): every access inside 16-byte buffers / the
+   128-byte table entry, stores only to the two output buffers; one byte less anywhere => a fault *)
+Theorem C09_ssse3_step_routines_in_bounds :
+  bounds4 standardToAltMapSSSE3Unsafe /\ bounds4 altToStandardMapSSSE3Unsafe /\
+  bounds5 mulAltMapSSSE3Unsafe /\ bounds5 mulSSSE3Unsafe /\ bounds5 mulAndAddSSSE3Unsafe.
+Proof.
+  exact (conj standardToAltMapSSSE3Unsafe_bounds (conj altToStandardMapSSSE3Unsafe_bounds
+        (conj mulAltMapSSSE3Unsafe_bounds (conj mulSSSE3Unsafe_bounds mulAndAddSSSE3Unsafe_bounds)))).
+Qed.
+Print Assumptions C09_ssse3_step_routines_in_bounds.
